@@ -898,3 +898,22 @@ Proof.
   intros Hwf Ht Hnd. apply gen_state_zero_never_opposite; [|exact Hnd].
   exact (gen_helpers_refine_Kin t tr Hwf Ht Hnd).
 Qed.
+
+Lemma spin_loop_fuel hi u : 0 < u -> forall (f1 f2 : nat) p,
+  (Z.to_nat (hi - p + 1) < f1)%nat -> (Z.to_nat (hi - p + 1) < f2)%nat -> spin_loop f1 p hi u = spin_loop f2 p hi u.
+Proof.
+  intros Hu. induction f1 as [|f1 IH]; intros f2 p H1 H2; [lia|].
+  destruct f2 as [|f2]; [lia|]. cbn [spin_loop].
+  destruct (Z.leb_spec p hi); [|reflexivity]. f_equal. apply IH; lia.
+Qed.
+
+(** more fuel than 2n+2 never changes what the translated create_spin_range returns *)
+Theorem gen_spin_range_fuel_irrelevant u n nz fuel : 0 < u -> 0 <= n -> (Z.to_nat (2 * n) + 2 <= fuel)%nat ->
+  gen_create_spin_range u fuel n nz = gen_create_spin_range u (Z.to_nat (2 * n) + 2) n nz.
+Proof.
+  intros Hu Hn Hf. unfold gen_create_spin_range.
+  destruct (gen_loop_spec u n nz n Hu fuel (- n) []) as [p1 H1]; [lia|].
+  destruct (gen_loop_spec u n nz n Hu (Z.to_nat (2 * n) + 2) (- n) []) as [p2 H2]; [lia|].
+  rewrite H1, H2. cbn [bind app].
+  rewrite (spin_loop_fuel n u Hu fuel (Z.to_nat (2 * n) + 2) (- n)) by lia. reflexivity.
+Qed.
